@@ -58,7 +58,7 @@ OPS = ["add", "radd", "sub", "rsub", "mul", "rmul", "div", "neg"]
 def arith_case(draw, tier="quick"):
     spec = draw(tensor_spec(3))
     op = draw(st.sampled_from(OPS))
-    other = draw(st.sampled_from(["tensor", "ndarray", "ndarray_bcast", "int", "float", "complex", "npscalar", "zerod"]))
+    other = draw(st.sampled_from(["tensor", "ndarray", "ndarray_bcast", "ndarray_lead", "ndarray_lead", "int", "float", "complex", "npscalar", "zerod"]))
     if op in ("mul", "rmul", "div"):
         other = draw(st.sampled_from(["int", "float", "complex", "npscalar", "zerod"]))
     val = draw(st.integers(-4, 4).filter(bool))
@@ -72,6 +72,11 @@ def make_other(kind, val, arr):
         return arr[::-1].copy() * val, arr[::-1] * val
     if kind == "ndarray_bcast":
         v = (np.arange(arr.shape[-1]) + val).copy()
+        return v, v
+    if kind == "ndarray_lead":
+        # an array with additional leading axes: broadcasting adds axes in front of the tensor's own axes
+        lead = (2, 1) if val % 2 else (3,)
+        v = (np.arange(C.prod(lead) * arr.size).reshape(lead + arr.shape) % 5 + val).copy()
         return v, v
     if kind == "int":
         return int(val), val
@@ -122,7 +127,10 @@ def run_arith(case):
     if ok:
         ck.check(np.array_equal(res.array, exp), site + ":values", C.short((res.array.tolist(), exp.tolist())))
     free = "free" if case["spec"]["nfree"] else "bound"
-    ck.check(types_of(res) == types_of(t), f"tensor:{op}:index-types:{free}", (types_of(res), types_of(t)))
+    # the index types of t; axes that broadcasting adds in front are collection axes, t's own axes follow them
+    off = res.array.ndim - arr.ndim
+    want = ([i + off for i in types_of(t)[0]], [i + off for i in types_of(t)[1]])
+    ck.check(types_of(res) == want, f"tensor:{op}:index-types:{free}" + (":leading-axes-added" if off else ""), (types_of(res), want))
     ck.check(np.array_equal(t.array, arr), site + ":operand-mutated")
     return ck.result()
 
